@@ -96,8 +96,22 @@ func Run(c *hx.Ctx) error {
 	case "lp": // lock-point schedules; only the binary built from the instrumented copies gets here
 		r := hx.NewRng(c.Seed ^ 0x4c50)
 		n := c.Budget(60, 1500)
+		only := c.Arg("only", "")
 		for i := 0; i < n; i++ {
-			if err := runLPHistory(c, r.Fork(), i); err != nil {
+			rr := r.Fork()
+			if only != "" && only != fmt.Sprint(i) {
+				continue
+			}
+			if err := runLPHistory(c, rr, i); err != nil {
+				return err
+			}
+		}
+		return nil
+	case "stress": // free-running rounds only (also what the -race binary runs)
+		r := hx.NewRng(c.Seed ^ 0x5354)
+		n := c.Budget(3, 30)
+		for i := 0; i < n; i++ {
+			if err := runStressRound(c, r.Fork(), i); err != nil {
 				return err
 			}
 		}
@@ -119,10 +133,26 @@ func Run(c *hx.Ctx) error {
 			return err
 		}
 	}
-	if c.Arg("lp", "on") == "off" {
-		return nil
+	if c.Arg("lp", "on") != "off" {
+		if err := runLockPointPart(c, 4*n); err != nil {
+			return err
+		}
 	}
-	return runLockPointPart(c, 4*n)
+	// free-running rounds (exploration)
+	rounds := 3
+	if c.Tier == "thorough" {
+		rounds = 12
+	}
+	rs := hx.NewRng(c.Seed ^ 0x5354)
+	for i := 0; i < rounds; i++ {
+		if err := runStressRound(c, rs.Fork(), i); err != nil {
+			return err
+		}
+	}
+	if c.Tier == "thorough" && c.Arg("race", "on") != "off" {
+		return runRacePart(c, 12)
+	}
+	return nil
 }
 
 func harnessDir() string {
@@ -241,4 +271,119 @@ func repoRoot() string {
 		return r
 	}
 	return "/repo"
+}
+
+// runRacePart builds this harness with the race detector and runs the free-running rounds in
+// it. Every report of the detector is a violation (class data_race).
+func runRacePart(c *hx.Ctx, rounds int) error {
+	base := os.Getenv("VERIF_SCRATCH")
+	if base == "" {
+		base = "/var/tmp/verif-scratch"
+	}
+	dir := filepath.Join(base, fmt.Sprintf("c04-race-%d", os.Getpid()))
+	defer os.RemoveAll(dir)
+	if err := os.MkdirAll(dir, 0o755); err != nil {
+		return err
+	}
+	t0 := time.Now()
+	bin := filepath.Join(dir, "ogh-race")
+	build := exec.Command("go", "build", "-race", "-tags", "verif c04", "-o", bin, "./cmd/ogh")
+	build.Dir = harnessDir()
+	build.Env = os.Environ() // GOFLAGS carries the active overlay, if any
+	if out, err := build.CombinedOutput(); err != nil {
+		return fmt.Errorf("race binary does not build: %v\n%s", err, out)
+	}
+	buildS := time.Since(t0).Seconds()
+	out := filepath.Join(dir, "out")
+	run := exec.Command(bin, "C04", "-D", "mode=stress", "-seed", fmt.Sprint(c.Seed+7), "-tier", c.Tier, "-n", fmt.Sprint(rounds), "-out", out)
+	run.Env = append(os.Environ(), "VERIF_SCRATCH="+filepath.Join(dir, "scratch"), "GORACE=log_path="+filepath.Join(dir, "race")+" halt_on_error=0 exitcode=0 history_size=3")
+	logf, _ := os.Create(filepath.Join(dir, "log.txt"))
+	run.Stdout, run.Stderr = logf, logf
+	err := run.Run()
+	logf.Close()
+	if err != nil {
+		tail, _ := os.ReadFile(filepath.Join(dir, "log.txt"))
+		if len(tail) > 3000 {
+			tail = tail[len(tail)-3000:]
+		}
+		return fmt.Errorf("race run failed: %v\n%s", err, tail)
+	}
+	line := c.Emit(fmt.Sprintf("note free-running rounds under the race detector (%d rounds)", rounds), "ok")
+	// the child's own violations
+	if b, err := os.ReadFile(filepath.Join(out, "viol.out")); err == nil {
+		for _, v := range strings.Split(string(b), "\n") {
+			parts := strings.SplitN(v, "\t", 3)
+			if len(parts) == 3 {
+				c.Violation(line, parts[1], "under -race: "+parts[2])
+			}
+		}
+	}
+	var st hx.Stats
+	if b, err := os.ReadFile(filepath.Join(out, "stats.json")); err == nil {
+		_ = json.Unmarshal(b, &st)
+	}
+	for k, v := range st.Hist {
+		c.Stats.Hist["race:"+k] += v
+	}
+	// the detector's reports
+	logs, _ := filepath.Glob(filepath.Join(dir, "race.*"))
+	seen := map[string]bool{}
+	nReports := 0
+	for _, lf := range logs {
+		b, err := os.ReadFile(lf)
+		if err != nil {
+			continue
+		}
+		for _, blk := range strings.Split(string(b), "==================") {
+			if !strings.Contains(blk, "WARNING: DATA RACE") {
+				continue
+			}
+			nReports++
+			sum := raceSummary(blk)
+			if seen[sum] {
+				continue
+			}
+			seen[sum] = true
+			c.Violation(line, "data_race", "race detector: "+sum)
+		}
+	}
+	c.Stats.Hist["race:reports"] += nReports
+	c.Stats.Notes = append(c.Stats.Notes, fmt.Sprintf("race part: binary built in %.0f s, %d rounds, %d reads checked, %d race reports (%d distinct)", buildS, rounds, st.Hist["stress:reads"], nReports, len(seen)))
+	return nil
+}
+
+// raceSummary: the two accesses of a report, each by its innermost frames inside /repo.
+func raceSummary(blk string) string {
+	var parts []string
+	cur := ""
+	var frames []string
+	flush := func() {
+		if cur != "" {
+			parts = append(parts, cur+" "+strings.Join(frames, " < "))
+		}
+		cur, frames = "", nil
+	}
+	for _, ln := range strings.Split(blk, "\n") {
+		t := strings.TrimSpace(ln)
+		switch {
+		case strings.HasPrefix(t, "Write at"), strings.HasPrefix(t, "Read at"), strings.HasPrefix(t, "Previous write at"), strings.HasPrefix(t, "Previous read at"),
+			strings.HasPrefix(t, "Atomic"), strings.HasPrefix(t, "Previous atomic"):
+			flush()
+			cur = strings.Join(strings.Fields(t)[:2], " ")
+			if strings.HasPrefix(t, "Previous") {
+				cur = strings.Join(strings.Fields(t)[:3], " ")
+			}
+			cur = strings.TrimSuffix(cur, " at")
+		case strings.HasPrefix(t, "Goroutine"):
+			flush()
+		case cur != "" && strings.HasPrefix(t, "github.com/openGemini/openGemini/") && len(frames) < 3:
+			f := strings.TrimPrefix(t, "github.com/openGemini/openGemini/")
+			if i := strings.LastIndexByte(f, '('); i > 0 {
+				f = f[:i]
+			}
+			frames = append(frames, f)
+		}
+	}
+	flush()
+	return strings.Join(parts, " || ")
 }
